@@ -34,7 +34,8 @@ static inline bool known_message(DP &dp, Normal &n, int &node, ref::Msg &m) {
 		case 1: if (!b->in_track || b->segments.empty()) break;
 			train(l, h);
 			m.type = M::BM_ADDRESS; m.data = {b->segments[dp.pick((unsigned) b->segments.size())].addr, l, (uint8_t) (h | (dp.flag() ? 0x80 : 0))};
-			if (dp.chance(60)) { uint8_t l2, h2; train(l2, h2); if (l2 != l || h2 != h) { m.data.push_back(l2); m.data.push_back(h2); } }
+			// a second entry; now and then the same decoder again (a detector should not do that, the library must survive it)
+			if (dp.chance(60)) { uint8_t l2, h2; train(l2, h2); if (l2 != l || h2 != h || dp.chance(128)) { m.data.push_back(l2); m.data.push_back((uint8_t) (h2 | (dp.flag() ? 0x80 : 0))); } }
 			return true;
 		case 2: if (!b->in_track || b->segments.empty()) break;
 			m.type = M::BM_CURRENT; m.data = {b->segments[dp.pick((unsigned) b->segments.size())].addr, dp.u8()}; return true;
